@@ -166,6 +166,7 @@ def check_run(case, comp, preds, world, calls, execs, res, R):
 
 
 def run_case_full(case, scratch):
+  lrun.fresh_process()      # one case = the life of one (simulated) process
   program = case['program']
   info = {'fired': [], 'statements': 0, 'discard': None, 'styles': {}, 'iterations': 0,
           'renamed': False, 'alone_compared': 0, 'calls': 0, 'trace_digest': None}
